@@ -92,8 +92,10 @@ c.returns("tag", "result[1] == encrypted_asset[12:28]")
 c.returns("info_publishes_iv", "result[2] == encryption_info(encrypted_asset[:12], self.cose_kw_alg, key_id, encrypted_cek)")
 c.result(TupleT([Bytes(), Bytes(16), Bytes()]))
 
-c = Contract(FE, "Encryptor._kw_alg_convert", ["C06"])
-c.param("self", Obj(FE, "Encryptor"))
+# `self` may have served EARLIER calls (history havoc): the attributes the class assigns hold arbitrary values on entry, so state that leaks from
+# one request into the next (a key-wrap algorithm that sticks) fails the postconditions - this is also C18's clause for encryption
+c = Contract(FE, "Encryptor._kw_alg_convert", ["C06", "C18"])
+c.param("self", ENCRYPTOR)
 c.param("kw_alg", EnumT(FB, "SuitKWAlgorithms"))
 c.returns("kw", "self.cose_kw_alg == (-5 if kw_alg.value == 'aes-kw-256' else -6)")
 c.modifies(**{"self.cose_kw_alg": OneOf(-6, -5)})
@@ -109,8 +111,8 @@ c.modifies(**{"self.kms": KMS})
 c.returns("keys_dir", "pathstr(self.kms.keys_directory) == KEYS_DIR(context)")
 c.raises("ValueError")
 
-c = Contract(FE, "Encryptor.encrypt_and_generate", ["C06", "C14"])
-c.param("self", Obj(FE, "Encryptor"))
+c = Contract(FE, "Encryptor.encrypt_and_generate", ["C06", "C14", "C18"])
+c.param("self", ENCRYPTOR)
 c.param("firmware", Bytes())
 c.param("key_name", Str())
 c.param("key_id", KEY_ID)
@@ -146,8 +148,8 @@ c.raises("ValueError")
 c.raises("FileNotFoundError")
 c.result(TupleT([Bytes(), Bytes(16), Bytes(), Bytes(), Int()]))
 
-c = Contract(FE, "Encryptor.generate", ["C06"])
-c.param("self", Obj(FE, "Encryptor"))
+c = Contract(FE, "Encryptor.generate", ["C06", "C18"])
+c.param("self", ENCRYPTOR)
 c.param("encrypted_asset", Bytes())
 c.param("encrypted_cek", Opt(Bytes()))
 c.param("key_id", KEY_ID)
@@ -280,6 +282,11 @@ def run_encrypt_case(B, size, key_id, hash_alg, reuse=None):
     open(f"{d}/fw.bin", "wb").write(fw)
     from pyvc import front
     case = {"mode": "encrypt-and-generate", "size": size, "key_id": key_id, "hash_alg": hash_alg}
+    if reuse:
+        # history: the output directory already holds (longer) artifacts of an earlier run - every file must be REPLACED
+        case["existing_longer_artifacts"] = True
+        for fn in ("suit_encryption_info.bin", "encrypted_content.bin", "plain_text_digest.bin", "plain_text_size.txt"):
+            open(f"{d}/{fn}", "wb").write(b"7" * (size + 5000))
     try:
         m.main(encrypt_subcommand="encrypt-and-generate", firmware=f"{d}/fw.bin", key_name="k", key_id=key_id, context=d,
                hash_alg=hash_alg, kw_alg="direct", kms_script=f"{front.REPO}/ncs/basic_kms.py",
@@ -315,6 +322,9 @@ def run_encrypt_case(B, size, key_id, hash_alg, reuse=None):
         open(f"{d}/blob.bin", "wb").write(blob)
         open(f"{d}/cek.bin", "wb").write(b"")
         d2 = B.fresh_dir("g")
+        if reuse:
+            for fn in ("suit_encryption_info.bin", "encrypted_content.bin"):
+                open(f"{d2}/{fn}", "wb").write(b"7" * (size + 5000))
         m.main(encrypt_subcommand="generate-info", encrypted_firmware=f"{d}/blob.bin", encrypted_key=f"{d}/cek.bin", key_id=key_id,
                kw_alg="direct", encrypt_script=f"{front.REPO}/ncs/encrypt_script.py", output_dir=d2)
         if open(f"{d2}/encrypted_content.bin", "rb").read() != content:
@@ -349,6 +359,11 @@ def bounded(ctx):
         B.case((size, kid, alg), sample=case)
         if msg:
             B.fail("artifacts-consistent", case, msg)
+    for size, kid, alg in ((77, 9, "sha-256"), (0, 300, "shake128"), (4096, 70000, "sha-512")):
+        case, msg, iv = run_encrypt_case(B, size, kid, alg, reuse=True)
+        B.case(("rerun-into-used-directory", size, kid, alg))
+        if msg:
+            B.fail("artifacts-consistent", case, "output directory held longer artifacts of an earlier run: " + msg)
     return B.done()
 
 
@@ -356,7 +371,7 @@ def replay_case(case):
     from bounded.harness import Bounded
     B = Bounded({"tier": "quick", "seed": 0}, "", "")
     try:
-        _, msg, _ = run_encrypt_case(B, case["size"], case["key_id"], case["hash_alg"])
+        _, msg, _ = run_encrypt_case(B, case["size"], case["key_id"], case["hash_alg"], reuse=case.get("existing_longer_artifacts"))
         return msg is None, msg
     finally:
         B.done()
